@@ -29,19 +29,18 @@ func NewPatternMatcher(pattern string, exactCase bool) (*PatternMatcher, error) 
 // Match checks whether the input string matches the pattern.
 func (m *PatternMatcher) Match(ident string, exactCase bool) bool {
 	if m.exactCase != exactCase {
-		m.re, _ = compileRegexp(m.pattern, exactCase)
-		m.exactCase = exactCase
+		// Whether the pattern compiles does not depend on the case rule,
+		// so this cannot fail for a matcher made by NewPatternMatcher.
+		if re, err := compileRegexp(m.pattern, exactCase); err == nil {
+			m.re = re
+			m.exactCase = exactCase
+		}
 	}
-
-	s := ident
-	if !exactCase {
-		s = strings.ToLower(s)
-	}
-	return m.re.MatchString(s)
+	return m.re.MatchString(ident)
 }
 
 // compileRegexp compiles the given pattern into a regular expression.
-// If exactCase is false, the pattern is case-insensitive.
+// If exactCase is false, the expression matches case-insensitively.
 func compileRegexp(pattern string, exactCase bool) (*regexp.Regexp, error) {
 	var expr string
 	if strings.HasPrefix(pattern, "/") && strings.HasSuffix(pattern, "/") && 2 <= len(pattern) {
@@ -50,7 +49,9 @@ func compileRegexp(pattern string, exactCase bool) (*regexp.Regexp, error) {
 		expr = fmt.Sprintf("^%v$", regexp.QuoteMeta(pattern))
 	}
 	if !exactCase {
-		expr = strings.ToLower(expr)
+		// Fold case in the matcher instead of lower-casing the expression,
+		// which rewrote escapes such as \S, \D, \W, \B or \PL into their opposites.
+		expr = "(?i)" + expr
 	}
 	re, err := regexp.Compile(expr)
 	if err != nil {
